@@ -747,6 +747,8 @@ def gen_c27_client(r, cid, thorough, fault=None, fixed=None):
                 what = "cancel"
             if what == "freecon" and autofree:
                 what = "cancel"
+            if what == "freecon" and fault.startswith("refuse") and r.random() < 0.7:
+                what = "cancel"          # (connection free in a connect-failure callback aborts under ASan: keep it rare)
             tgt = 0
             if what == "cancel":
                 tgt = r.randrange(nreq)
@@ -803,7 +805,7 @@ def gen_c27_client(r, cid, thorough, fault=None, fixed=None):
             c.c("tick")
         c.c("lsnlisten 0")
     c.c("drain 40")
-    m["risky"] = fault.startswith("refuse") and bool(acts or mids)
+    m["risky"] = fault.startswith("refuse") and any(a[2] == "freecon" for a in acts)
     m.update(nreq=nreq, nextra=nextra, post=post, retries=retries, timeout=timeout, style=style, fault=fdesc, L=L,
              acts=[list(a) for a in acts], mids=[list(x) for x in mids], autofree=autofree, short=list(short) if short else None,
              opts=opts)
